@@ -182,9 +182,26 @@ def gen_reply(rng, name, qtype, qclass, k4=False, big=False):
     return bytes(e.b)
 
 
+def boundary_cfgs():
+    """hand-picked configurations (the boundary catalogue of the rule logic); each gets its share of queries"""
+    ex = [b"example", b"com"]
+    return [
+        # an EMPTY domain set referenced by a plain rule, a reversed rule, then a catch-all
+        ("ut", 0, [[], [("d", ex)]], [(0, 0, 3, "-"), (1, 0, 0, 0), (0, 1, 0, 1)]),
+        # adjacent rules on the SAME set, reversed one first; then plain-first
+        ("ut", 1, [[("d", ex), ("f", [b"foo"])]], [(0, 1, 0, 0), (0, 0, 0, 1)]),
+        ("tt", 0, [[("d", ex)], [("d", [b"com"])]], [(0, 0, 5, "-"), (0, 0, 0, 0), (1, 1, 2, 1), (1, 0, 0, 1)]),
+        # reject and forward on one rule (reject wins); a rule without action; no catch-all
+        ("u", 0, [[("d", ex)]], [(0, 0, 3, 0), ("-", 0, 0, "-")]),
+        # no rules at all
+        ("u", 1, [[("f", ex)]], []),
+    ]
+
+
 def handle_gen(rng, tier):
     n = budget(tier, 1600, 40000)
-    ncfg = budget(tier, 4, 40)
+    bcfgs = boundary_cfgs()
+    ncfg = budget(tier, 3, 40) + len(bcfgs)
     out = []
     idx = 0
     slow_budget = budget(tier, 8, 64)
@@ -192,10 +209,11 @@ def handle_gen(rng, tier):
         kinds = None
         if ci % 4 == 1:
             kinds = "t" * rng.randint(1, 3)
-        cfg = gen_cfg(rng, kinds=kinds, ecs=1 - ci % 2)
+        cfg = bcfgs[ci] if ci < len(bcfgs) else gen_cfg(rng, kinds=kinds, ecs=1 - ci % 2)
         spec = cfg_spec(cfg)
         allt = set(cfg[0]) == {"t"}
-        for _ in range(n // ncfg):
+        share = (n // 3) // len(bcfgs) if ci < len(bcfgs) else (n - n // 3) // max(1, ncfg - len(bcfgs))
+        for _ in range(share):
             idx += 1
             q, name, qtype, qclass = gen_query(rng, cfg, idx)
             l = rng.choice(["udp", "udp", "tcp", "gnet", "http-get", "http-post", "fasthttp-get", "fasthttp-post"])
@@ -329,3 +347,7 @@ PROPS["C12"] = dict(
            dict(name="packreq", gen=packreq_gen, shards=8, timeout=600, nontrivial=lambda l, r: r.startswith("OK"))],
     rule=ROUTER_RULE, assumptions=["inputs carry at most one OPT record, in the additional section (RFC 6891)"],
     trusted=ROUTER_TRUST, level_note="")
+
+# C09 also runs the handle kind: the listeners' size limits are observed on the bytes real clients receive
+PROPS["C09"]["kinds"].append(handle_kind(["c09-"]))
+PROPS["C09"]["rule"] += ("; " + ROUTER_RULE)
